@@ -2,7 +2,11 @@ mod common;
 mod sched;
 mod world;
 mod c14;
+mod c15;
 mod c20;
+mod eval;
+mod r#gen;
+mod walkmon;
 
 use common::*;
 
@@ -28,7 +32,9 @@ fn main() {
     .map(|v| v as u64)
     .unwrap_or(1);
   let code = match id {
+    "C02" => c15::run_c02(tier, seed),
     "C14" => c14::run(tier, seed),
+    "C15" => c15::run_c15(tier, seed),
     "C20" => c20::run(tier, seed, args.iter().any(|a| a == "--miri")),
     _ => {
       eprintln!("unknown property {}", id);
